@@ -9,7 +9,7 @@ import collections
 import importlib
 import re
 
-PROP_GROUPS = {'C04': ['driver'], 'C15': ['fields'], 'C01': ['flow'], 'C07': ['flow', 'ejson'], 'C11': ['join'], 'C02': ['join'], 'C10': ['matcher'], 'C14': ['handlers', 'vloop'], 'C17': ['rows'], 'C13': ['load']}
+PROP_GROUPS = {'C12': ['sortkey'], 'C04': ['driver'], 'C15': ['fields'], 'C01': ['flow'], 'C07': ['flow', 'ejson'], 'C11': ['join'], 'C02': ['join'], 'C10': ['matcher'], 'C14': ['handlers', 'vloop'], 'C17': ['rows'], 'C13': ['load']}
 
 
 # ---------------------------------------------------------------- encoding
@@ -489,6 +489,96 @@ def run_ejson(ctx, b, n):
     b.flush()
 
 
+def run_sortkey(ctx, b, n):
+    """`KeyCalc(...)(row)` and the keying generator of `_sorter`: the real functions against the translated ones; the bit array
+    operations (performed for real on a `bitstring.BitArray`) and `str.format` as tables"""
+    from bitstring import BitArray
+    SR = importlib.import_module('dataflows.processors.sort_rows')
+    rng = ctx.rng('pycorr-sortkey')
+    RANGE = opq('range', '1:64')
+
+    def bits_pv(ba):
+        return to_pv({'__sign__': bool(ba[0]), '__mag__': int(ba[1:].bin, 2), 'hex': ba.hex})
+    ints = [0, 1, -1, 2, -2, 7, 255, -256, 10 ** 6, -(10 ** 6), 2 ** 53, -(2 ** 53) + 1, 3, -3]
+    for _ in range(n):
+        names = rng.sample(['a', 'b', 'c', 'd'], rng.randint(1, 3))
+        row = {k: (rng.choice(ints) if rng.random() < 0.6 else rng.choice(['x', 'ab', '', 'a b', '\xe9'])) for k in ['a', 'b', 'c', 'd'] if rng.random() < 0.9}
+        form = rng.choice(['list', 'list', 'format', 'format-spec'])
+        if form == 'list':
+            spec, formatters = list(names), None
+        elif form == 'format':
+            spec = ''.join('{%s}' % k for k in names)
+        else:
+            spec = '-'.join('{%s%s}' % (k, rng.choice(['', ':>6', '!s'])) for k in names)
+        if form != 'list':
+            formatters = SR.FIELDS_RE.findall(spec)
+        kc = SR.KeyCalc(spec)
+        real = real_call(kc, dict(row))
+        ext = [['range', [to_pv(1), to_pv(64)], RANGE]]
+        seen = set()
+        for k in names:
+            v = row.get(k)
+            if isinstance(v, int) and not isinstance(v, bool):
+                ba = BitArray(float=v, length=64)
+                p0 = bits_pv(ba)
+                ba.invert(0)
+                p1 = bits_pv(ba)
+                if v < 0:
+                    ba.invert(range(1, 64))
+                if v not in seen:
+                    seen.add(v)
+                    ext.append(['BitArray', [{'t': 'tuple', 'v': [to_pv('float'), to_pv(v)]}, {'t': 'tuple', 'v': [to_pv('length'), to_pv(64)]}], p0])
+                    ext.append(['.invert!', [p0, to_pv(0)], p1])
+                    if v < 0:
+                        ext.append(['.invert!', [p1, RANGE], bits_pv(ba)])
+                    ext.append(['str', [to_pv(ba.hex)], to_pv(ba.hex)])
+                for f in (formatters or []):
+                    for val in (ba.hex, v):
+                        try:
+                            ext.append(['.format', [to_pv(f), {'t': 'tuple', 'v': [to_pv(k), to_pv(val)]}], to_pv(f.format(**{k: val}))])
+                        except Exception:  # noqa
+                            pass
+            if v is not None:
+                ext.append(['isinstance:float', [to_pv(v)], to_pv(False)])
+                ext.append(['isinstance:Decimal', [to_pv(v)], to_pv(False)])
+                if isinstance(v, str):
+                    ext.append(['str', [to_pv(v)], to_pv(v)])
+                    for f in (formatters or []):
+                        try:
+                            ext.append(['.format', [to_pv(f), {'t': 'tuple', 'v': [to_pv(k), to_pv(v)]}], to_pv(f.format(**{k: v}))])
+                        except Exception:  # noqa
+                            pass
+        key_spec = names if form == 'list' else [SR.KEY_RE.findall(f[1:])[0] for f in formatters]
+        b.add('sort_key_func', [row, key_spec, formatters], real, ext=ext, case=[row, spec])
+        # the keying generator: key + separator + 8 hex digits of the row number
+        rows = [{'a': i} for i in range(rng.randint(0, 4))]
+
+        def fake_calc(r):
+            return 'k%d' % r['a']
+        captured = []
+
+        class FakeKV:
+            def insert(self, it, batch_size=None):
+                captured.extend(list(it))
+
+            def items(self, reverse=False):
+                return iter(captured)
+
+            def close(self):
+                pass
+        real_kv = SR.KVFile
+        SR.KVFile = FakeKV
+        try:
+            list(SR._sorter(iter([dict(r) for r in rows]), fake_calc, False, 1000))
+        finally:
+            SR.KVFile = real_kv
+        ext = [['key_calc', [to_pv(r)], to_pv(fake_calc(r))] for r in rows]
+        ext += [['.format', [to_pv('\x01{:08x}'), to_pv(i)], to_pv('\x01{:08x}'.format(i))] for i in range(len(rows))]
+        expected = [tuple(t) for t in captured]
+        b.add('sort_process', [rows, None], {'ok': expected}, ext=ext, case=[len(rows)])
+    b.flush()
+
+
 def exc_pv(tag):
     return to_pv({'__exception__': tag, 'errors': []})
 
@@ -797,7 +887,7 @@ def run_flow(ctx, b, n):
     b.flush()
 
 
-RUNNERS = {'ejson': run_ejson, 'driver': run_driver, 'fields': run_fields, 'flow': run_flow, 'load': run_load, 'vloop': run_vloop, 'join': run_join, 'matcher': run_matcher, 'handlers': run_handlers, 'rows': run_rows}
+RUNNERS = {'sortkey': run_sortkey, 'ejson': run_ejson, 'driver': run_driver, 'fields': run_fields, 'flow': run_flow, 'load': run_load, 'vloop': run_vloop, 'join': run_join, 'matcher': run_matcher, 'handlers': run_handlers, 'rows': run_rows}
 
 
 def run(ctx, groups=None, n=None):
